@@ -14,6 +14,17 @@ Norm(k) ==
     [] k.k = "slice" -> [k EXCEPT !.a = Norm(k.a)]
     [] k.k = "cond" -> [k EXCEPT !.c = Norm(k.c), !.t = Norm(k.t), !.f = Norm(k.f)]
     [] k.k \in {"op", "compose"} -> [k EXCEPT !.a = [i \in 1..Len(k.a) |-> Norm(k.a[i])]]
+    [] k.k = "assign" ->
+         (* an assignment to a slice is an assignment to the whole destination of the composition *)
+         (* of the untouched parts and the source                                                 *)
+         IF k.d.k = "slice"
+         THEN LET base == Norm(k.d.a) wb == k.bw
+                  Sl(lo, hi) == [k |-> "slice", a |-> base, lo |-> lo, hi |-> hi]
+                  parts == (IF k.d.lo > 0 THEN <<Sl(0, k.d.lo)>> ELSE <<>>) \o <<Norm(k.s)>>
+                           \o (IF k.d.hi < wb THEN <<Sl(k.d.hi, wb)>> ELSE <<>>)
+              IN [k |-> "assign", d |-> base, bw |-> wb,
+                  s |-> IF Len(parts) = 1 THEN parts[1] ELSE [k |-> "compose", a |-> parts]]
+         ELSE [k EXCEPT !.d = Norm(k.d), !.s = Norm(k.s)]
 
 OneBit == {"==", "<u", "<s", "<=u", "<=s", "parity", "FLAG_EQ", "FLAG_SUB_CF"}
 RECURSIVE SumW(_, _)
@@ -25,6 +36,7 @@ WidthOf(k) ==
     [] k.k = "cond" -> WidthOf(k.t)
     [] k.k = "compose" -> SumW(k.a, 1)
     [] k.k = "op" -> IF k.op \in OneBit THEN 1 ELSE WidthOf(k.a[1])
+    [] k.k = "assign" -> WidthOf(k.d)            \* of the normalised key: the whole destination
 
 N == Len(Keys)
 Tables ==
